@@ -234,6 +234,21 @@ def run(ctx, scale):
   if scale > 1:
     plan = {k: v * 3 for k, v in plan.items()}
   specs = []
+  if scale == 1:
+    # fixed boundary requests, run every time (each is the shape of a past finding or a documented edge)
+    corpus = [
+      ("spe_search", dict(thresholds="all_satisfied", budget_frac=0.8, layout="search", n=14, num_to_sample=1)),   # F13: no violators
+      ("spe_search", dict(thresholds="none_satisfied", budget_frac=0.8, layout="search", n=14, num_to_sample=2)),
+      ("spe_next", dict(thresholds="all_satisfied", budget_frac=0.5, layout="constraint", n=25, num_to_sample=2)),
+      ("gp_next", dict(flavour="mixed", layout="single", n=8, tasks=2, pending=2, parallelism="qei", num_to_sample=1)),   # F10
+      ("gp_next", dict(flavour="discrete", layout="single", n=10, tasks=0, pending=0, num_to_sample=3)),
+      ("gp_next", dict(flavour="int_constrained", layout="constraint", n=8, tasks=0, num_to_sample=2)),
+      ("gp_next", dict(flavour="double_constrained", layout="two", n=12, tasks=0, num_to_sample=1, budget_frac=0.4)),   # F2: random spread
+      ("search_next", dict(flavour="mixed", layout="search", n=10, budget_frac=0.8, num_to_sample=2)),
+      ("random", dict(flavour="priors", num_to_sample=3)),
+    ]
+    for ep, over in corpus:
+      specs.append(G.gen_request(rng, ep, **over))
   for ep, n in plan.items():
     for _ in range(n):
       specs.append(gen_spec(rng, ep, ctx.tier))
